@@ -41,6 +41,7 @@ DEVIATIONS = {
     "mid_forwards_before_apply": ("chain", "AckAll"),
     "conflict_keeps_existing": ("ml", "ConvergeAE"),
     "ae_one_way": ("ml", "ConvergeAE"),
+    "merged_winner_dropped": ("ml", "ConvergeAE"),
     "replica_writes_unordered": ("rs", "Converge"),
 }
 # known-finding key -> deviation of the impl model that is the code's behaviour
@@ -76,7 +77,7 @@ def consts(model, dev=(), **kw):
         c = {"N": kw.get("n", 3), "NK": kw.get("nk", 1), "MaxW": kw.get("maxw", 3)}
     else:
         c = {"N": kw.get("n", 2), "NK": kw.get("nk", 1), "MaxW": kw.get("maxw", 2), "MaxAE": kw.get("maxae", 1),
-             "BurstOnly": "TRUE" if kw.get("burst") else "FALSE"}
+             "BurstOnly": "TRUE" if kw.get("burst") else "FALSE", "Mode": '"%s"' % kw.get("mode", "lww")}
     c["Dev"] = devset(dev)
     return c
 
@@ -98,6 +99,8 @@ def mc_jobs(tier):
         job("chain 2 nodes craq 2 keys 2 writes 2 reads", "chain", dict(n=2, nk=2, maxw=2, maxr=2, craq=(True,)))
         job("ml 2 leaders 3 writes", "ml", dict(n=2, nk=1, maxw=3, maxae=1))
         job("ml 3 leaders 2 writes", "ml", dict(n=3, nk=1, maxw=2, maxae=3))
+        job("ml merging resolver 2 leaders 3 writes", "ml", dict(n=2, nk=1, maxw=3, maxae=1, mode="merge"))
+        job("ml merging resolver 3 leaders 2 writes", "ml", dict(n=3, nk=1, maxw=2, maxae=3, mode="merge"))
         job("replicated store 3 replicas 2 keys 3 puts", "rs", dict(n=3, nk=2, maxw=3))
     else:
         job("pb 2 backups 2 keys 3 writes", "pb", dict(nb=2, nk=2, maxw=3))
@@ -110,10 +113,13 @@ def mc_jobs(tier):
         job("ml 2 leaders 2 keys 4 writes", "ml", dict(n=2, nk=2, maxw=4, maxae=1))
         job("ml 3 leaders 3 writes", "ml", dict(n=3, nk=1, maxw=3, maxae=3))
         job("ml 3 leaders 2 keys 2 writes", "ml", dict(n=3, nk=2, maxw=2, maxae=3))
+        job("ml merging resolver 2 leaders 2 keys 3 writes", "ml", dict(n=2, nk=2, maxw=3, maxae=1, mode="merge"))
+        job("ml merging resolver 3 leaders 3 writes", "ml", dict(n=3, nk=1, maxw=3, maxae=3, mode="merge"))
         job("replicated store 4 replicas 2 keys 4 puts", "rs", dict(n=4, nk=2, maxw=4))
     for dev, (model, inv) in DEVIATIONS.items():
         kw = {"pb": dict(nb=2, nk=1, maxw=2), "chain": dict(n=3, nk=1, maxw=2, maxr=1, craq=(True,)),
-              "ml": dict(n=2, nk=1, maxw=2, maxae=1), "rs": dict(n=2, nk=1, maxw=2)}[model]
+              "ml": dict(n=2, nk=1, maxw=2, maxae=1, mode="merge" if dev == "merged_winner_dropped" else "lww"),
+              "rs": dict(n=2, nk=1, maxw=2)}[model]
         job(f"sensitivity {dev}", model, kw, dev=[dev], expect=inv, count=False)
     job("witness: multi-leader without anti-entropy", "ml", dict(n=2, nk=1, maxw=2, maxae=0),
         expect="WitnessNoAE", count=False, invs=["WitnessNoAE"])
@@ -132,6 +138,7 @@ def replay_jobs(tier, code_dev):
         job("graph pb", "pb", dict(nb=2, nk=1, maxw=2))
         job("graph chain craq", "chain", dict(n=3, nk=1, maxw=2, maxr=1, craq=(True,)))
         job("graph ml", "ml", dict(n=2, nk=1, maxw=2, maxae=1, burst=True))
+        job("graph ml merging resolver", "ml", dict(n=2, nk=1, maxw=2, maxae=1, burst=True, mode="merge"))
         job("graph replicated store", "rs", dict(n=3, nk=1, maxw=2))
     else:
         job("graph pb", "pb", dict(nb=2, nk=2, maxw=2))
@@ -140,6 +147,8 @@ def replay_jobs(tier, code_dev):
         job("graph chain 2 nodes", "chain", dict(n=2, nk=2, maxw=2, maxr=2, craq=(True,)))
         job("graph ml", "ml", dict(n=2, nk=1, maxw=3, maxae=1, burst=True))
         job("graph ml 3", "ml", dict(n=3, nk=1, maxw=2, maxae=3, burst=True))
+        job("graph ml merging resolver", "ml", dict(n=2, nk=1, maxw=3, maxae=1, burst=True, mode="merge"))
+        job("graph ml 3 merging resolver", "ml", dict(n=3, nk=1, maxw=2, maxae=3, burst=True, mode="merge"))
         job("graph replicated store", "rs", dict(n=3, nk=2, maxw=3))
     return jobs
 
@@ -228,6 +237,7 @@ def schedule(path: Path):
     nk = s0["nk"]
     ml = model == "ml"
     sc = {"proto": model, "n": n, "nk": nk, "mode": s0.get("mode", "-"), "craq": bool(s0.get("craq", False)),
+          "resolver": "vcm_union" if s0.get("mode") == "merge" else "lww",
           "base_w": 0.03125 if ml else 0.25, "base_r": 0.25, "net_default": 0.0625 if ml else 1.0,
           "ae_window": 0.4375}
     ops = []
@@ -294,9 +304,10 @@ def schedule(path: Path):
                 sent_at[rsp], deliv_at[rsp] = t, t + sc["net_default"]
                 route_msgs.setdefault((j, i), []).append(rsp)
             # ... and its reconciling puts consume slots of the stores' put scripts (plain store latency)
-            for x in (j, i):
+            answered = st["ver"][j - 1] != prev["ver"][i - 1]
+            for x, theirs in ((j, prev["ver"][i - 1]), (i, st["ver"][j - 1] if answered else None)):
                 for kk in range(nk):
-                    if st["ver"][x - 1][kk] != prev["ver"][x - 1][kk]:
+                    if theirs is not None and theirs[kk] and ml_decide_put(prev, prev["ver"][x - 1][kk], theirs[kk]):
                         put_start[x].append(t)
                         put_done[x].append(t + sc["base_w"])
         prev = st
@@ -317,6 +328,31 @@ def schedule(path: Path):
     return sc, times, groups
 
 
+def ml_decide_put(s, e, x):
+    """MultiLeader.tla Decide(s, e, x).put: does a leader holding version e write its store on meeting x?"""
+    n = s["n"]
+    wr = [_rec(r) for r in s["wr"]]
+
+    def vc(S):
+        return [max([wr[w - 1]["vc"][j] for w in S] or [0]) for j in range(n)]
+
+    def dom(a, b):
+        return all(p >= q for p, q in zip(a, b)) and any(p > q for p, q in zip(a, b))
+
+    if not e:
+        return True
+    ve, vx = vc(e), vc(x)
+    if dom(vx, ve):
+        return True
+    if dom(ve, vx):
+        return False
+    if s["mode"] == "merge":
+        return True
+    ke = (max(wr[w - 1]["ts"] for w in e), max(wr[w - 1]["n"] for w in e))
+    kx = (max(wr[w - 1]["ts"] for w in x), max(wr[w - 1]["n"] for w in x))
+    return kx > ke
+
+
 def model_projection(model, s):
     if model == "pb":
         return {"snap": [list(s["pst"])] + [list(b) for b in s["bst"]], "acked": sorted(s["acked"])}
@@ -326,7 +362,8 @@ def model_projection(model, s):
                 "reads": {r: _rec(x)["v"] for r, x in enumerate(s["rd"], start=1) if _rec(x)["ph"] == "done"}}
     if model == "rs":
         return {"snap": [list(x) for x in s["st"]], "acked": sorted(s["acked"])}
-    return {"snap": [list(x) for x in s["ver"]], "acked": sorted(s["acked"]), "ver": [list(x) for x in s["ver"]]}
+    cells = [[sorted(c) for c in x] for x in s["ver"]]
+    return {"snap": cells, "acked": sorted(s["acked"]), "ver": cells}
 
 
 def compare_replay(path: Path, world, times, groups):
@@ -387,6 +424,7 @@ def path_from_trace(model, trace):
 
 LAT = (0.001, 0.002, 0.003, 0.005, 0.008, 0.013, 0.021, 0.034, 0.055)
 STORE = (0.0, 0.001, 0.002, 0.005)
+STORE_HET = STORE + (0.001, 0.005, 0.02, 0.06, 0.15)      # heterogeneous replica storage speeds (slow interior nodes)
 
 
 def _routes(n, star=False):
@@ -445,7 +483,7 @@ def random_chain(rng):
     ops.sort(key=lambda o: o[0])
     return {"proto": "chain", "craq": craq, "n": n, "nk": nk, "ops": ops,
             "net": _net(rng, _routes(n), 2 * m + 4, rng.choice(("rand", "rand", "decreasing", "const"))),
-            "net_default": rng.choice(LAT), "base_w": [rng.choice(STORE) for _ in range(n)],
+            "net_default": rng.choice(LAT), "base_w": [rng.choice(STORE_HET) for _ in range(n)],
             "base_r": [rng.choice(STORE) for _ in range(n)]}
 
 
@@ -485,8 +523,9 @@ def random_ml(rng, wild=False):
     net = _net(rng, _routes(n), 2 * m, rng.choice(("rand", "rand", "decreasing", "const")))
     sc = {"proto": "ml", "n": n, "nk": nk, "net": net, "net_default": 0.002,
           "base_w": [rng.choice(STORE[1:]) for _ in range(n)], "base_r": 0.001,
-          "resolver": rng.choice(("lww", "lww", "vcm", "vcm_fn", "custom", "default")), "ae_window": 0.2,
-          "rseed": rng.randrange(10 ** 6)}
+          "resolver": rng.choice(("lww", "vcm", "vcm_fn", "custom", "default", "vcm_union", "vcm_union", "custom_union")),
+          "ae_window": 0.2, "rseed": rng.randrange(10 ** 6)}
+    sc["mode"] = "merge" if sc["resolver"].endswith("union") else "lww"
     quiet_at = wt[-1] + 1.0
     if wild:
         sc["ae_interval"] = rng.choice((0.004, 0.01, 0.03))
@@ -571,6 +610,12 @@ def classify(world, trace, verdict, pos, cverdict, cpos=0, code_dev=()):
                 key = clause + ":unclassified"
     # a key that is an open finding only counts as that finding if the impl model with the open deviations
     # reproduces the execution up to the failing event (drift after it is irrelevant)
+    elif clause == "ml_replicas_differ_after_anti_entropy":
+        end = [r for r in log if r["e"] == "end"][-1]
+        kind = "merging_resolver" if world.sc.get("mode") == "merge" else "pick_one_resolver"
+        own = all(len(c) <= 1 for row in end["snap"] for c in row)
+        key = f"{clause}:{kind}" + (":merged_value_never_installed" if kind == "merging_resolver" and own else "")
+        why = f"resolver {world.sc.get('resolver')}; final stores {end['snap']}"
     if key in KEY_DEV and KEY_DEV[key] in code_dev and cverdict != "OK" and cpos <= pos:
         key = f"{key}:not_reproduced_by_model({cverdict})"
     return key, why
